@@ -13,14 +13,14 @@
      header view     headers_enc_eq_dec members added by add_header are what headers() returns
      AAD / KDF info  aad_enc_eq_dec, kdf_info_enc_eq_dec
      wire format     c04_compact_segments_rt
-   c04_single_rt_kw_rsa, c04_single_rt_dir, c04_single_rt_gcmkw and c04_single_rt_ecdh_direct are END-TO-END (object level, one recipient,
+   c04_single_rt_kw_rsa, _dir, _gcmkw, _pbes2, _ecdh_direct and _ecdh_kw are END-TO-END (object level, one recipient,
    every serialization / enc / zip): there the glue is done in Coq.
-   c04_compact_rt / c04_flat_rt / c04_general_rt are the message-layer theorem
-   instantiated per serialization; their premise "the recipients yield the CEK of
-   the encryption" is what the key-layer theorems establish per family; the
-   mechanical gluing for the remaining modes (PBES2, ECDH-ES+A*KW, ECDH-1PU+A*KW:
-   header members added, delayed wrapping) and for several recipients is not carried
-   out in Coq: *_partial in that sense. *)
+   They cover EVERY row of the algorithm table (c04_single_rt_covers_all_algorithms), i.e. the compact and the
+   flattened round trip for every alg x enc x zip.
+   c04_compact/flat/general_rt_partial are the message-layer theorem instantiated per serialization with the
+   premise "the recipients yield the CEK of the encryption"; for SEVERAL recipients (general JSON) the gluing of
+   the per-recipient key-layer theorems through pre_loop / post_loop / recip_loop is not carried out in Coq:
+   that is what *_partial means. *)
 From Coq Require Import Lia.
 From Model Require Import JweBase JweCrypto JweMsg JweCases C02Examples.
 From Gen Require Import Tables.
@@ -138,6 +138,55 @@ Theorem c04_single_rt_ecdh_direct : forall O, contracts O -> forall g o d x r,
      lenN (d_civ d) * 8 = ee_iv_size e) ->
   perform_decrypt O g (obj_of o x) = Ok (e_plain o).
 Proof. exact single_rt_ecdh_direct. Qed.
+
+(* Key Agreement with Key Wrapping (ECDH-ES+A*KW; ECDH-1PU+A*KW with the JWE tag bound into the KDF):
+   the wrapping key derived after content encryption is the one the recipient derives *)
+Theorem c04_single_rt_ecdh_kw : forall O, contracts O -> forall g o d x r,
+  e_recips o = [r] -> perform_encrypt O g o d = Ok x ->
+  wf (e_prot o) -> hdr_wf (e_unprot o) -> hdr_wf (r_header r) -> (e_ser o = Compact -> r_header r = PNone) ->
+  (forall hs', o_check_header O (PDict hs') true = Ok tt) ->
+  (forall hs algv a,
+     headers (e_ser o) (e_prot o) (e_unprot o) (r_header r) = Ok hs -> hitem hs "alg" = Ok algv ->
+     get_alg g algv = Ok a -> ea_direct a = false /\ is_agreement a = true) ->
+  (forall eph epkd, r_eph r = Some (eph, epkd) ->
+     o_import O (k_kty (r_key r)) epkd = Ok (pubk eph) /\ k_kty eph = k_kty (r_key r)) ->
+  k_priv (r_key r) = true ->
+  (forall sk, r_sender r = Some sk -> k_kty sk = k_kty (r_key r)) ->
+  (forall encv e, hitem (e_prot o) "enc" = Ok encv -> get_enc g encv = Ok e ->
+     lenN (d_civ d) * 8 = ee_iv_size e /\ lenN (d_cek d) * 8 = ee_cek_size e) ->
+  perform_decrypt O g (obj_of o x) = Ok (e_plain o).
+Proof. exact single_rt_ecdh_kw. Qed.
+
+(* PBES2: salt input and count, given by the caller or added by encryption (4 cases), are the ones decryption uses *)
+Theorem c04_single_rt_pbes2 : forall O, contracts O -> forall g o d x r,
+  e_recips o = [r] -> perform_encrypt O g o d = Ok x ->
+  wf (e_prot o) -> hdr_wf (e_unprot o) -> hdr_wf (r_header r) -> (e_ser o = Compact -> r_header r = PNone) ->
+  (forall hs', o_check_header O (PDict hs') true = Ok tt) ->
+  (exists r' hs', x_recips x = [r'] /\ headers (e_ser o) (x_prot x) (e_unprot o) (r_header r') = Ok hs') ->
+  (forall hs algv a,
+     headers (e_ser o) (e_prot o) (e_unprot o) (r_header r) = Ok hs -> hitem hs "alg" = Ok algv ->
+     get_alg g algv = Ok a ->
+     ea_direct a = false /\ is_agreement a = false /\
+     fam_is (ea_family a) "RSA" = false /\ fam_is (ea_family a) "AESKW" = false /\
+     fam_is (ea_family a) "AESGCMKW" = false /\ fam_is (ea_family a) "PBES2" = true) ->
+  bytes_ok (match d_rec d with d0 :: _ => d_p2s d0 | [] => [] end) = true ->
+  (forall encv e, hitem (e_prot o) "enc" = Ok encv -> get_enc g encv = Ok e ->
+     lenN (d_civ d) * 8 = ee_iv_size e /\ lenN (d_cek d) * 8 = ee_cek_size e) ->
+  perform_decrypt O g (obj_of o x) = Ok (e_plain o).
+Proof. exact single_rt_pbes2. Qed.
+
+(* every row of the algorithm table falls under one of the six end-to-end theorems *)
+Example c04_single_rt_covers_all_algorithms :
+  forallb (fun a =>
+    let kw_rsa := negb (ea_direct a) && negb (is_agreement a) && (fam_is (ea_family a) "RSA" || fam_is (ea_family a) "AESKW") in
+    let dir_ := ea_direct a && negb (is_agreement a) && fam_is (ea_family a) "dir" in
+    let gcmkw := negb (ea_direct a) && negb (is_agreement a) && fam_is (ea_family a) "AESGCMKW" in
+    let pbes2 := negb (ea_direct a) && negb (is_agreement a) && fam_is (ea_family a) "PBES2" in
+    let ecdh_d := ea_direct a && is_agreement a in
+    let ecdh_kw := negb (ea_direct a) && is_agreement a in
+    kw_rsa || dir_ || gcmkw || pbes2 || ecdh_d || ecdh_kw) jwe_alg_table_drafts = true
+  /\ length jwe_alg_table_drafts = 21%nat.
+Proof. vm_compute. split; reflexivity. Qed.
 
 (* two successive add_header calls: both members visible, every other member untouched *)
 Theorem c04_add_header_twice : forall s prot unprot r k1 v1 k2 v2 p1 r1 p2 r2 hs hs',
@@ -328,6 +377,8 @@ Print Assumptions c04_single_rt_kw_rsa.
 Print Assumptions c04_single_rt_dir.
 Print Assumptions c04_single_rt_gcmkw.
 Print Assumptions c04_single_rt_ecdh_direct.
+Print Assumptions c04_single_rt_ecdh_kw.
+Print Assumptions c04_single_rt_pbes2.
 Print Assumptions c04_add_header_twice.
 Print Assumptions c04_content_rt.
 Print Assumptions c04_pkcs7_rt.
